@@ -22,6 +22,7 @@ CONSTANTS
   KeyTest = TRUE
   MaxDel = 3
   ObsoleteTimeout = 2
+  LockKeys = {}
   ConsumeNet = FALSE
   Ideal = TRUE
   Ghost = TRUE
